@@ -44,6 +44,18 @@ CLAIMS = {
             "Contract-based P obligations where listed are discharged for all inputs; the program-shape quantifier is covered by a bounded stand-in (enumerated scope, labelled bounded, never counted as proved).",
             "Trusted: S1/S2/S3 specs, pyvc encoding, composition lemma (DESIGN §3.3); known findings are reported as KNOWN-FINDING lines.",
             'DESIGN §4 C20'),
+    "C03": ("other", "bounded tick-level simulation of the real pipeline's blueprint (S2 model) against the S3 gated-cell semantics over enumerated held-input histories",
+            "Bounded stand-in only (labelled bounded, never counted as proved): the DESIGN's template lemmas by SMT induction over ticks were not built; see DESIGN §4.",
+            "Trusted: S2 tick model, S3 memory semantics; bounded histories / tick counts / value pools as printed in the evidence.",
+            "DESIGN §4 C03"),
+    "C04": ("other", 'bounded tick-level simulation (S2 model) from the all-zero state against the iteration equation value(t+L) = f(value(t)) with f from S3',
+            "Bounded stand-in only (labelled bounded, never counted as proved): the DESIGN's template lemmas by SMT induction over ticks were not built; see DESIGN §4.",
+            "Trusted: S2 tick model, S3 memory semantics; bounded histories / tick counts / value pools as printed in the evidence.",
+            "DESIGN §4 C04"),
+    "C05": ("other", 'bounded tick-level simulation (S2 model) against the S3 latch state machine (set/reset/hold/priority) over enumerated held-input histories',
+            "Bounded stand-in only (labelled bounded, never counted as proved): the DESIGN's template lemmas by SMT induction over ticks were not built; see DESIGN §4.",
+            "Trusted: S2 tick model, S3 memory semantics; bounded histories / tick counts / value pools as printed in the evidence.",
+            "DESIGN §4 C05"),
     "C16": ("other", "contract-based deductive verification (pyvc VCs with inductive loop invariants + variants on the real ForStmt.get_iteration_values) plus bounded stand-ins for the lowering plumbing",
             "The iteration sequence is proved for all (start, stop, step) and list iterators; the per-iteration scoping in the analyzer/lowerer is checked by bounded stand-ins, labelled as such.",
             "Trusted: pyvc encoding, composition lemma, 'IR equal up to fresh ids => same circuit'.",
